@@ -102,6 +102,19 @@ CHECKS["C06"] = ("proof",
     "machine-checked proof in Coq (lexical selection theorems) + kernel-evaluated sort correspondence on real tables + "
     "token-by-token comparison of the real LR/GLR runtimes with the verified rule", "DESIGN.md §6 C06")
 
+CHECKS["C05"] = ("proof",
+    "Coq theorems about the cell function of calculate_reductions, unbounded over grammars, priorities, flags and action "
+    "lists: sr_cell_spec (a shift/accept cell receiving a reduction becomes exactly what the documented decision table "
+    "`decide` prescribes: priority, then associativity with the terminal overriding the production, left/reduce keeps the "
+    "reduction, right/shift keeps the shift, then prefer_shifts / prefer_shifts_over_empty unless nops / nopse), "
+    "sr_prod_keyword / sr_term_keyword, sr_cell_general / sr_three_way, rr_cell_spec, shift_prio_is_max, resolve_subset "
+    "(resolution only removes candidates), resolve_no_panic / state_no_panic / resolve_panic_sites. The model recomputes "
+    "every cell of every real dumped table from its items (resolve_ok_b, kernel-evaluated), every real conflicting cell is "
+    "judged by the independent spec, get_conflicts' count is compared with the cells; operator grammars: the real LR "
+    "parser's tree equals the precedence-climbing reference on all operator strings up to 9 tokens (exploration).",
+    "machine-checked proof in Coq (decision-table refinement of the resolution cell function) + kernel-evaluated "
+    "recomputation of every real cell + real-parser operator-tree exploration", "DESIGN.md §6 C05")
+
 PENDING_REASON = ("not yet claimed: check under construction (DESIGN.md §6 describes the planned theorem, validator and "
                   "correspondence); it is registered only once it runs end to end")
 
